@@ -354,6 +354,10 @@ func (fr *Frame) loopHead(li *loopInfo, b *ssa.BasicBlock, phis []*ssa.Phi, pred
 		v := fc.freshVal(p.Type(), fr.tagStr+p.Name()+"!"+sanitize(p.Comment))
 		fr.vals[p] = v
 		fc.assume(sImp(fr.reach[b], fc.typingFacts(nst, v)), "typing of loop variable")
+		if p.Comment == "rangeindex" && kindOf(p.Type()) == KInt {
+			// compiler-generated range counter: starts at -1 and is only ever incremented by one below the length
+			fc.assume(sImp(fr.reach[b], sAnd(fc.m.cmp(token.GEQ, v.S, fc.m.intConstI(-1, tInt), tInt), fc.m.cmp(token.LEQ, v.S, fc.m.intConst(pow2(62), tInt), tInt))), "range counter lies between -1 and the largest possible length")
+		}
 	}
 	// 3. assume invariants
 	if fr.isTop {
